@@ -172,6 +172,15 @@ func runC14(c *core.Case) *core.Result {
 		clocks := []uint64{1<<31 - 2, 1<<32 - 2, 1<<53 - 2, 1<<62 - 1000}
 		crdt.InstallClock(O, clocks[c.Rng.Intn(len(clocks))])
 	}
+	if c.Index%5 == 1 {
+		// identifiers of a later era (the field exists in every stored and transported identifier)
+		era := uint32(1 + c.Rng.Intn(3))
+		if c.Rng.Intn(4) == 0 {
+			era = 1<<32 - 1
+		}
+		crdt.InstallEra(O, era)
+		c.Count("histories_with_nonzero_era", 1)
+	}
 	A := crdt.NewRep(10, typ) // receives fully decoded operations
 	B := crdt.NewRep(11, typ) // receives wire operations only
 	n := tierN(c.Tier, 25, 60)
